@@ -5,12 +5,19 @@ _m(
     "exploration",
     "Hypothesis draws one tiny 4D-STEM experiment per case: detector ROI (R, C) in [6..16]^2 (odd and even sizes, "
     "non-square in ~5/6 of the cases), raster grid (g0, g1) in [2..6]^2, object pixel size 0.15-0.8 A per axis (reciprocal "
-    "sampling = 1/(ROI x pixel size)), scan step 1.05-6 object pixels per axis (4 decimals, i.e. fractional pixel positions; "
-    "steps that would put a scan point within 0.01 px of a half-integer are nudged), energy 60/80/200/300 keV, slices S in "
-    "1..4 with S-1 independent thicknesses 2-40 A, probe modes M in 1..3, object type complex | pure_phase | potential, "
+    "sampling = 1/(ROI x pixel size)); each scan axis is generic (1/2: step 1.05-6 object pixels with 4 decimals, i.e. "
+    "fractional positions, steps that would put a scan point within 0.01 px of a half-integer are nudged), half (1/3: step "
+    "1.5/2.5/3.5/4.5/5.5 px with pixel size 0.25 or 0.5 A so that the library's float32 positions are EXACTLY k + 0.5, with "
+    "even and odd k alternating along the axis) or int (1/6: integer step, exactly integer positions); energy 60/80/200/300 keV, slices S in "
+    "1..4 with S-1 independent thicknesses 2-40 A, probe modes M in 1..3 installed in a drawn order (any permutation, "
+    "not only strongest-first), object type complex | pure_phase | potential, "
     "requested obj_padding_px 0..6 per axis, loss l1|l2 x amplitude|intensity, batch size 1..J (at most 12 batches, ragged "
     "partitions included), descan handling A (com_fit_function='no_shift', no dataset optimiser) | B (dataset optimiser + "
-    "constraint descan_shifts_constant, com_fit constant or plane).  The library itself (public preprocess on an all-ones "
+    "constraint descan_shifts_constant, com_fit constant or plane).  One case in four is of kind reconstruct_history: after "
+    "the direct evaluation a fresh Ptychography object at the ground truth goes through 2-3 public reconstruct() calls (1-2 "
+    "iterations each, at most 4 batches, independently drawn loss types, reset=False continuation (2/3) or reset=True (1/3)) "
+    "with nothing to optimise (no optimiser in mode A, dataset optimiser with lr=0 in mode B; truth probe also set as "
+    "initial_probe so that reset returns to it) and every iter_losses entry is judged.  The library itself (public preprocess on an all-ones "
     "dataset of that geometry) supplies the object shape and the pixel position of the first scan point; the harness then "
     "builds a periodic unit-amplitude object of that shape (random phases of range 0.8-3.1 rad, white or 3x3-smoothed; "
     "potentials V in [0.01, strength]), M probe modes (soft aperture of radius 1.6..min(R,C)/2-0.5 detector pixels, defocus "
@@ -21,8 +28,12 @@ _m(
     "(ObjectPixelated.from_array(truth), probe through the public probe setter).  Perturbations: object phase noise sigma "
     "0.15-0.6 rad (|noise| added to potentials), probe extra defocus +-1.5-4 rad at the aperture edge.  A case is "
     "NON-TRIVIAL when S >= 2 or M >= 2 or the ROI is non-square or (some scan position is fractional and the effective "
-    "padding is > 0 on both axes); cases skipped because a scan point sits on a half-integer pixel (rounding convention) or "
-    "because they have the shape of an open known finding are recorded as trivial.  distinct = SHA-1 of the canonical JSON "
+    "padding is > 0 on both axes) or the case is a reconstruct_history; cases skipped because a scan point lies within 2e-3 "
+    "px of, but not exactly on, a half-integer or because they have the shape of an open known finding are recorded as "
+    "trivial.  Tracked classes (coverage.classes): tie:half_pixel_position_even/odd_lower_neighbour, "
+    "positions:exactly_integer_on_an_axis, modes:installed_out_of_order / installed_strongest_first, "
+    "kind:reconstruct_history, history:loss_family_changes_on_continuation / _after_reset, tie_rule_matching_library:*, "
+    "patch_wraps_around_object_edge, roi:odd/even/square/nonsquare, S*, M*, type:*, loss:*, descan:*, batches:*.  distinct = SHA-1 of the canonical JSON "
     "of the whole case (shapes, S, M, type, loss, batch, descan, seed and every drawn parameter).",
     [
         "oracle: numpy float64 simulator written from the physics, sharing no code with quantem: per-position loop, periodic "
@@ -57,13 +68,24 @@ _m(
         "mean pattern intensities are >= 100 so that the 1e-9 regulariser stays far below a pixel's amplitude; absorbing "
         "objects, tilted probes, learned descan, rotated/transposed scans, detector masks, the poisson loss and "
         "padded_diffraction_intensities_shape are outside the claim",
-        "scan points whose pixel position is within 2e-3 of a half-integer are not judged (which neighbour round() picks is a "
-        "convention; the generator avoids them)",
+        "a scan point exactly half-way between two object pixels has two nearest pixels; either may be the window origin as "
+        "long as the sub-pixel probe shift is taken relative to the same pixel, but with a finite periodic probe window the two "
+        "choices differ at the window edge (truth loss 0.02-0.04 under the 'wrong' consistent rule for the generated probes), "
+        "so the reference simulates the data under each consistent rule (half-to-even, half-up, half-down) in turn and the "
+        "truth loss must vanish for at least one; the clean tree matches half-to-even in every case, a tree patched to use "
+        "half-up in both places passes too; exact ties are only asserted when the library's own float32 position equals k + 0.5 "
+        "exactly (power-of-two pixel sizes), points within 2e-3 px of a tie but not on it are not judged",
+        "reconstruct_history: iter_losses entries are the mean over batches of the full-scan-scaled batch losses plus soft "
+        "constraint losses (all weights 0 by default), so each entry owes the same truth bound as a direct evaluation provided "
+        "the models did not move; the harness installs no object/probe optimiser, uses lr = 0 for the dataset optimiser that "
+        "descan mode B needs, and verifies afterwards that object and probe parameters are unchanged (harness error otherwise); "
+        "clean tree: entries <= 0.02 of the bound",
     ],
     workers=(4, 16),
     technique="property-based testing (Hypothesis) with a differential oracle: an independent float64 numpy multislice / "
     "mixed-state ptychography simulator written from the physics; zero-loss, loss-definition, batch-scaling and autograd "
-    "stationarity assertions on the public forward chain",
+    "stationarity assertions on the public forward chain, and the same truth bound on the iteration losses reported by "
+    "sequences of public reconstruct() calls",
     text="Generated-input search: every case simulates a small experiment with the reference simulator, lets the library "
     "preprocess the data, installs the ground truth and evaluates the statements of Ptychography.reconstruct's inner loop. "
     "Judged: loss(truth) <= tolerance for the whole scan and every batch; loss at a perturbed object/probe == its "
